@@ -8,6 +8,8 @@ Reference-model monitors on real GPyRegression / BolfiPosterior objects:
       called directly, under histories of update()/optimize()/is_sampling toggles;
  (iii) evidence after each update == concatenation of everything passed in, in order.
 """
+import math
+
 import numpy as np
 import scipy.stats as ss
 
@@ -434,11 +436,28 @@ def run_case(ctx, case):
                         return float(np.ravel(post.logpdf(z if d > 1 else z.reshape(1)))[0])
                     gq = np.ravel(post.gradient_logpdf(x if d > 1 else x.reshape(1)))
                     num = richardson(f, x, h)
+                    # the reference is itself a finite difference: where the log-density is so steep or so curved that two step
+                    # sizes disagree beyond a tenth of the tolerance below, it cannot judge (counted, not judged)
+                    num_half = richardson(f, x, h / 2)
+                    if np.all(np.isfinite(num)) and not np.allclose(num, num_half, rtol=1e-4, atol=1e-5 * (1 + np.abs(num).max())):
+                        ctx.event('gradient_reference_unstable_skipped')
+                        continue
+                    mu_x, var_x = [float(np.ravel(v)[0]) for v in gp.predict(x)]
+                    z_x = (thr - mu_x) / math.sqrt(var_x) if var_x > 0 else -np.inf
+                    if z_x < -200 and float(np.linalg.cond(gp._gp.posterior.woodbury_inv)) > 1e6:
+                        # thousands of standard deviations from the threshold on an ill-conditioned GP: the log-density there is
+                        # ~ -z^2/2, so the rounding of the predictive variance (eps * cond) is amplified by z^2 in the analytic
+                        # gradient and in the finite difference alike - neither can judge the other (far tails of
+                        # well-conditioned GPs are judged by the far-tail check below)
+                        ctx.event('gradient_far_tail_ill_conditioned_skipped')
+                        continue
                     ctx.event('gradient_checked')
                     if np.isfinite(f(x)) and not np.all(np.isfinite(gq)):
                         raise Violation('gradient-not-finite', 'gradient_logpdf is %r where logpdf is finite (%r)' % (gq, f(x)), {'x': x})
                     if np.all(np.isfinite(num)) and not np.allclose(gq, num, rtol=1e-3, atol=1e-4 * (1 + np.abs(num).max())):
-                        raise Violation('gradient', 'gradient_logpdf %r, Richardson difference of logpdf %r' % (gq, num), {'x': x})
+                        raise Violation('gradient', 'gradient_logpdf %r, Richardson difference of logpdf %r' % (gq, num),
+                                        {'x': x, 'richardson_half_step': num_half, 'prediction': [np.ravel(v).tolist() for v in gp.predict(x)],
+                                         'cond_woodbury_inv': float(np.linalg.cond(gp._gp.posterior.woodbury_inv))})
                     # the same at an integer-TYPED query (np.array([0, 1])): the nearest lattice point when it is interior too
                     xi = np.round(x)
                     if np.minimum(xi - lo, hi - xi).min() > 100 * h:
@@ -471,7 +490,10 @@ def run_case(ctx, case):
             g1 = np.ravel(post.gradient_logpdf(x.reshape(1, d)))
             same = (np.isneginf(one) and np.isneginf(got[i])) or np.isclose(got[i], one, rtol=1e-7, atol=1e-7)
             # batched and single-point library calls differ in the last digits; log Phi amplifies that far from the threshold
-            gsame = np.allclose(grd[i], g1, rtol=1e-5, atol=1e-7 * (1 + np.abs(g1[np.isfinite(g1)]).max(initial=0.0)), equal_nan=True)
+            # one row evaluated inside a batch and alone goes through differently blocked linear algebra; the rounding of the
+            # predictive variance (eps * cond of the kernel matrix) is amplified in the far tail of an ill-conditioned GP
+            gr = max(1e-5, 1e4 * np.finfo(float).eps * float(np.linalg.cond(gp._gp.posterior.woodbury_inv)))
+            gsame = np.allclose(grd[i], g1, rtol=gr, atol=1e-7 * (1 + np.abs(g1[np.isfinite(g1)]).max(initial=0.0)), equal_nan=True)
             if not (same and gsame):
                 raise Violation('logpdf-batch-row', 'row %d of a mixed inside/outside query: logpdf %r (alone: %r), gradient %r (alone: %r)' % (
                     i, float(got[i]), one, grd[i].tolist(), g1.tolist()), {'query': Xq, 'bounds': bounds})
